@@ -5,7 +5,7 @@ PROP = {'level': 'proof',
           'analysis on the overflowing_sub guard + list lemmas, no bound on length). The model is tied to '
           'the code by an exhaustive small-scope differential run over all functions, _mut twins, four '
           'element types.',
- 'sources': [('harness', 'c02')],
+ 'sources': [('harness', 'c02'), ('programs', 'c02_const')],
  'exhaustive': True,
  'rule': 'Exhaustive: every slice length 0..=L (L=8 quick, 16 thorough) x every index / index pair from '
          '0..=len+2 plus isize::MAX, isize::MAX+1, usize::MAX-1, usize::MAX x every function (shared and '
